@@ -343,8 +343,8 @@ def trips(ts):
 # the driver's probe shows the unrepaired behaviour (set both to True once the patches are in):
 #  fixes/C15-sequential-bidx-rectangular.patch  (sequential_bidx / ReorderedTensorGenerator on rectangular blocks)
 #  fixes/C15-matvec-noncontiguous-column.patch  (M.dot(X) with a C-ordered N x k array, k >= 2, for 2 and 3 levels)
-COMPARE_RECT_SEQ_BIDX_ALWAYS = False
-MULTICOLUMN_C_ORDER = False
+COMPARE_RECT_SEQ_BIDX_ALWAYS = True
+MULTICOLUMN_C_ORDER = True
 
 PRODUCT_OPS = ('dot', 'matmat', 'at', 'matvec', 'matmat2', 'sum', 'dotdot', 'opprod', 'reodot')
 
